@@ -24,8 +24,6 @@ if [ -n "$demo" ]; then
 fi
 if (cd "$S" && go build ./... && go test -vet=off -count=1 ./... >"$S/.t" 2>&1); then echo "repo-tests-with-change: pass"; else echo "repo-tests-with-change: FAIL"; tail -5 "$S/.t"; fi
 for ID in ${IDS//,/ }; do
-  out="$(VERIF_REPO="$S" "$HERE/check" "$ID" "$TIER" 2>&1)"; r=$?
+  out="$(VERIF_REPO="$S" VERIF_EVIDENCE_DIR="$S/.evidence" VERIF_REPLAYS_DIR="$S/.replays" "$HERE/check" "$ID" "$TIER" 2>&1)"; r=$?
   echo "$ID exit=$r $(echo "$out" | grep -m2 -E '^  domain=|INFRA' | tr '\n' ' ' | cut -c1-300)"
 done
-git -C "$HERE" checkout -- evidence 2>/dev/null
-rm -f "$HERE"/replays/*.json
